@@ -594,4 +594,98 @@ theorem ready_active_loops (unreg : Nat → Bool) (s : LSys) (as : List LAct) (h
   · rw [← h2]; exact hact
   · rw [hact] at h2; cases h2
 
+/-! ### audit follow-up: enabledness, tokens of the other writes, first registration, stop when not ACTIVE -/
+
+/-- the heartbeat tick is served in every control state in which the real loop has a ticker case -/
+theorem heartbeat_enabled (unregister : Bool) (c : Cfg) (ctl : Ctl) (l : Local) (file : File) (store : Option Desc) (now : Int) (gen : Gen)
+    (h : match c.kind with
+      | .LC => (ctl.phase = .running ∨ ctl.phase = .stopping) ∧ ctl.pending = false
+      | .BLC => (ctl.phase = .starting ∧ ctl.observeArmed = true) ∨ ctl.phase = .running ∨ ctl.phase = .stopping) :
+    loopNext unregister c ctl l file store .heartbeat now gen = some (.own .heartbeat now gen .none, ctl) := by
+  cases hk : c.kind <;> simp only [hk] at h
+  · rcases h with ⟨h1 | h1, h2⟩ <;> simp [loopNext, hk, h1, h2]
+  · rcases h with ⟨h1, h2⟩ | h1 | h1 <;> simp [loopNext, hk, h1, *]
+
+/-- `verifyTokens` on a mismatch: the ring's tokens of the own entry are kept and topped up to `numTokens` -/
+theorem lc_verify_tokens {c : Cfg} {l : Local} {file : File} {din : Option Desc} {now : Int} {gen : Gen}
+    (hk : c.kind = .LC) (hs : l.started = true) (hg : GenOK gen)
+    (hne : sortNat (tokensOf (din.getD []) c.id) ≠ sortNat l.tokens)
+    (hnd : (tokensOf (din.getD []) c.id).Nodup) (hle : (tokensOf (din.getD []) c.id).length ≤ c.numTokens) :
+    ∃ d' b, (step c l file din .verify now gen .none).out = .write d' ∧ Desc.get? d' c.id = some b ∧
+      (step c l file din .verify now gen .none).ret = .no ∧
+      b.state = l.state ∧ (step c l file din .verify now gen .none).l.tokens = b.tokens ∧
+      b.tokens.length = c.numTokens ∧ b.tokens.Pairwise (· < ·) ∧
+      (∀ t ∈ tokensOf (din.getD []) c.id, t ∈ b.tokens) ∧
+      (∀ t ∈ b.tokens, t ∈ tokensOf (din.getD []) c.id ∨ ∀ i ∈ din.getD [], t ∉ i.tokens) := by
+  have h := topup_ok hg (tokensOf_sub_all (din.getD []) c.id) hnd hle
+  simp only [step, hk, hs, Bool.not_true, Bool.false_eq_true, if_false, lcVerify, reduceCtorEq, hne, decide_false]
+  refine ⟨_, _, rfl, get?_put_self _ _, by simp, rfl, rfl, h.1, h.2.1, h.2.2.1, ?_⟩
+  intro t ht
+  rcases h.2.2.2 t ht with h1 | h1
+  · exact Or.inl h1
+  · exact Or.inr (fun i hi hti => h1 (mem_allTokens.mpr ⟨i, hi, hti⟩))
+
+/-- heartbeat, changeState (incl. the J→A activation) and the read-only toggle republish the RING's tokens -/
+theorem lc_update_keeps_ring_tokens {c : Cfg} {l : Local} {file : File} {din : Option Desc} {ev : Event} {now : Int} {gen : Gen}
+    {fault : Fault} {e b : Inst} {d' : Desc} (hk : c.kind = .LC)
+    (hev : ev = .heartbeat ∨ (∃ s, ev = .changeState s) ∨ ∃ r, ev = .changeRO r)
+    (he : Desc.get? (din.getD []) c.id = some e)
+    (h : (step c l file din ev now gen fault).out = .write d') (hb : Desc.get? d' c.id = some b) :
+    b.tokens = e.tokens := by
+  have key : ∀ l' : Local, (lcUpdate c l' file din now fault).out = .write d' → b.tokens = e.tokens := by
+    intro l' h'
+    by_cases hf : fault = .failBefore
+    · simp [lcUpdate, hf] at h'
+    · simp [lcUpdate, hf, he] at h'
+      subst h'
+      rw [get?_put] at hb
+      simp [lcInst] at hb
+      subst hb; rfl
+  by_cases hs : l.started = true
+  · rcases hev with rfl | ⟨s, rfl⟩ | ⟨r, rfl⟩
+    · simp only [step, hk, hs, Bool.not_true, Bool.false_eq_true, if_false] at h; exact key _ h
+    · simp only [step, hk, hs, Bool.not_true, Bool.false_eq_true, if_false, lcChangeState] at h
+      split at h
+      · exact key _ h
+      · simp at h
+    · simp only [step, hk, hs, Bool.not_true, Bool.false_eq_true, if_false, lcChangeRO] at h
+      split at h
+      · simp at h
+      · exact key _ h
+  · have hs' : l.started = false := by simpa using hs
+    rcases hev with rfl | ⟨s, rfl⟩ | ⟨r, rfl⟩ <;> simp [step, hk, hs', noop] at h
+
+/-- first registration of a full lifecycler: registered now; tokens of the tokens file are published as they are
+(sorted), ACTIVE at once iff there are at least `numTokens` of them, otherwise PENDING -/
+theorem lc_first_registration {c : Cfg} {l : Local} {file : File} {din : Option Desc} {shuf : List Nat} {now : Int} {gen : Gen}
+    {fault : Fault} (hk : c.kind = .LC) (hf : fault ≠ .failBefore) (habs : Desc.get? (din.getD []) c.id = none) :
+    let r := step c l file din (.init shuf) now gen fault
+    let ft := if c.hasFile then file.load.getD [] else []
+    ∃ b, r.out = .write (put (din.getD []) b) ∧ b.id = c.id ∧ b.regTs = now ∧ b.ts = now ∧ b.tokens = ft ∧
+      b.state = (if 0 < ft.length ∧ c.numTokens ≤ ft.length then .ACTIVE else .PENDING) ∧
+      r.l.tokens = ft ∧ r.l.state = b.state ∧ r.l.regTs = now := by
+  simp only [step, hk, lcInit, hf, if_false, habs]
+  refine ⟨_, rfl, ?_, ?_, ?_, ?_, ?_, ?_, ?_, ?_⟩ <;> first | rfl | trivial
+
+theorem blc_first_registration {c : Cfg} {l : Local} {file : File} {din : Option Desc} {shuf : List Nat} {now : Int} {gen : Gen}
+    {fault : Fault} (hk : c.kind = .BLC) (hf : fault ≠ .failBefore) (habs : Desc.get? (din.getD []) c.id = none) :
+    ∃ b, (step c l file din (.init shuf) now gen fault).out = .write (put (din.getD []) b) ∧ b.id = c.id ∧ b.regTs = now ∧
+      b.ts = now ∧ b.state = c.registerState := by
+  simp only [step, hk, blcRegister, hf, if_false, habs]
+  exact ⟨_, rfl, rfl, rfl, rfl, rfl⟩
+
+/-- `ctx.Done()` of a full lifecycler that is not ACTIVE: `changeState(LEAVING)` is refused, nothing is written,
+the lifecycler keeps its state through `stopping()` -/
+theorem lc_stop_nonactive {unregister : Bool} {c : Cfg} {ctl : Ctl} {l : Local} {file : File} {store : Option Desc}
+    {now : Int} {gen : Gen} (hk : c.kind = .LC) (hp : ctl.phase = .running) (hpend : ctl.pending = false)
+    (hs : l.started = true) (ha : l.state ≠ .ACTIVE) :
+    loopNext unregister c ctl l file store .stop now gen =
+      some (.own (.changeState .LEAVING) now gen .none, { ctl with phase := .stopping }) ∧
+    (step c l file store (.changeState .LEAVING) now gen .none).out = .noCas ∧
+    (step c l file store (.changeState .LEAVING) now gen .none).l = l := by
+  refine ⟨by simp [loopNext, hk, hp, hpend], ?_⟩
+  have hal : allowed l.state .LEAVING = false := by
+    cases hst : l.state <;> simp [allowed] <;> exact ha hst
+  simp [step, hk, hs, lcChangeState, hal]
+
 end PfC08
